@@ -115,8 +115,10 @@ def post_documents(more):
             for t in itertools.product(POST, repeat=k):
                 yield head + "".join(t)
 MODES = ["unchecked", "skip", "wrap"]
-N = {"quick": {"AC": 4, "HS": 4, "REF": 3}, "thorough": {"AC": 5, "HS": 5, "REF": 4}}
-K = {"quick": {"AC": 2, "HS": 2, "REF": 2}, "thorough": {"AC": 3, "HS": 3, "REF": 2}}
+# the reference tokenizer differs from the others only in extract_tokens (a loop over all 6.8k patterns, 5-20 ms per text):
+# its share of the quick tier is kept small, the thorough tier goes as deep as for the others allows
+N = {"quick": {"AC": 4, "HS": 4, "REF": 2}, "thorough": {"AC": 5, "HS": 5, "REF": 4}}
+K = {"quick": {"AC": 2, "HS": 2, "REF": 1}, "thorough": {"AC": 3, "HS": 3, "REF": 2}}
 
 
 def setup(tier, seed):
